@@ -686,3 +686,103 @@ def targets(tier='quick'):
 
 
 META = {'level': 'proof', 'explanation': '', 'trusted_base': [], 'clauses': []}
+
+
+# ---- the two-site update itself: _apply_nn_gate (Vidal form), real code on free tensors (tnnorm, SVDs as exact factorisations)
+class NnGateTarget:
+    """_apply_nn_gate(site, lam_l, gam_l, lam_m, gam_r, lam_r, gate_l, gate_r, epsrel) returns (site, gam_l', lam_m', gam_r') such that
+    with nothing truncated      lam_l gam_l' lam_m' gam_r' lam_r  ==  (gate_l gate_r) applied to the physical legs of  lam_l gam_l lam_m gam_r lam_r
+    (open legs: left bond, new physical leg and process-tensor leg of either site, right bond), the lambdas being diagonal matrices whose
+    reciprocals (_invert_lambda, real code) cancel against them; every SVD is asked for max_truncation_err = epsrel, relative = True;
+    the three returned nodes are disconnected, gammas with legs (bond, physical, process tensor, bond)."""
+
+    def __init__(self, prop=PROP):
+        self.prop, self.name, self.qualname = prop, 'tebd/nn-gate-update', 'backends.pt_tebd_backend._apply_nn_gate'
+
+    def replay(self, ob):
+        return {'func': 'nn_gate_parameters' if 'parameters' in ob['name'] else 'two_site_chain_vs_dense', 'inputs': {'obligation': ob['name']}}
+
+    def run(self, timeout_ms, tier):
+        import time
+        from pyvc import tnnorm
+        from pyvc.tnnorm import TArr, TNode, equal, contract_between
+        from pyvc.interp import Interp
+        from pyvc.modules import Repo, describe
+        from pyvc import values as Vv
+        t0 = time.time()
+        repo = Repo()
+        res = {'target': self.name, 'function': self.qualname, 'property': self.prop, 'paths': 0, 'obligations': [], 'undecided': [], 'errors': [],
+               'flags': ['FREE_TENSOR_SYMBOLS', 'SVD_AS_EXACT_FACTORISATION'], 'lib_pure': [],
+               'lib_used': ['tensornetwork.Node, ^, @, split_node_full_svd, contractors.optimal, Edge.disconnect (contracts)'], 'functions_extra': []}
+        fref = repo.resolve(self.qualname)
+        if fref is None:
+            res['undecided'].append('contract target missing: %s' % self.qualname)
+            return res
+        res['functions_extra'].append(describe(fref))
+        R = Registry()
+        tnnorm.install(R)
+
+        @model
+        def m_is_diag(ip, args, kw):
+            t = args[0]
+            if isinstance(t, TArr) and t.rank == 2 and t.out[0] == t.out[1]:
+                return True
+            raise Unsupported('_is_diagonal_matrix of a tensor that is not written as a diagonal')
+        R.models['backends.pt_tebd_backend._is_diagonal_matrix'] = m_is_diag
+        Vv.reset_fresh()
+        ip = Interp(repo, R, [], solver_timeout_ms=timeout_ms)
+        LL, LM, LR = TArr.diag_sym('LL'), TArr.diag_sym('LM'), TArr.diag_sym('LR')
+        GL, GR = TArr.sym('GL', 4), TArr.sym('GR', 4)
+        UL, UR = TArr.sym('UL', 3), TArr.sym('UR', 3)
+        eps = Real('epsrel')
+
+        def ob(name, ok, info):
+            res['obligations'].append({'name': name, 'backend': 'tnnorm', 'flags': res['flags'], 'info': info, 'model': info, 'pc_sat': 'sat',
+                                       'result': 'discharged' if ok else 'refuted', 'seconds': 0.0})
+        try:
+            out = ip.call(fref, [Int('site'), TNode(LL), TNode(GL), TNode(LM), TNode(GR), TNode(LR), TNode(UL), TNode(UR), eps], {})
+        except Unsupported as u:
+            res['undecided'].append('unsupported construct in _apply_nn_gate: %s' % u)
+            return res
+        except PyRaise as pr:
+            ob('tebd/nn-gate/no-exception', False, {'exception': pr.exc.typ})
+            return res
+        res['paths'] = 1
+        site, gl, lm, gr = out
+        nodes_ok = all(isinstance(x, TNode) for x in (gl, lm, gr))
+        ob('tebd/nn-gate/returns-site-and-three-nodes', nodes_ok and site is not None and to_z3(site).eq(Int('site')), {'returned': repr(out)[:200]})
+        if not nodes_ok:
+            return res
+        ob('tebd/nn-gate/returned-nodes-are-disconnected', all(e.is_dangling() for x in (gl, lm, gr) for e in x.edges) and (gl.arr.rank, lm.arr.rank, gr.arr.rank) == (4, 2, 4),
+           {'ranks': [gl.arr.rank, lm.arr.rank, gr.arr.rank]})
+        calls = ip.ghost.get('svd_calls', [])
+        ob('tebd/nn-gate/truncation-parameters', len(calls) == 3 and all(c.get('max_truncation_err') is eps and c.get('relative') is True and c.get('max_singular_values') is None
+                                                                      for c in calls), {'calls': [{k: repr(v) for k, v in c.items()} for c in calls]})
+        # lam_l gam_l' lam_m' gam_r' lam_r  against the gates applied to the old two-site block
+        try:
+            a, b = TNode(LL), TNode(LR)
+            a.edges[1].pv_binop(ip, 'xor', gl.edges[0])
+            gl.edges[3].pv_binop(ip, 'xor', lm.edges[0])
+            lm.edges[1].pv_binop(ip, 'xor', gr.edges[0])
+            gr.edges[3].pv_binop(ip, 'xor', b.edges[0])
+            order = [a.edges[0], gl.edges[1], gl.edges[2], gr.edges[1], gr.edges[2], b.edges[1]]
+            c = a
+            for n in (gl, lm, gr, b):
+                c = contract_between(c, n)
+            perm = [next(i for i, e in enumerate(c.edges) if e is x) for x in order]
+            got = c.arr.permute(perm)
+        except (Unsupported, StopIteration, PyRaise) as ex:
+            got = None
+        l = {k: tnnorm.new_label() for k in 'abcpqtsgPQ'}
+        want = TArr([('LL', (l['a'],)), ('GL', (l['a'], l['p'], l['t'], l['b'])), ('LM', (l['b'],)), ('GR', (l['b'], l['q'], l['s'], l['c'])), ('LR', (l['c'],)),
+                     ('UL', (l['P'], l['p'], l['g'])), ('UR', (l['g'], l['Q'], l['q']))], [l['a'], l['P'], l['t'], l['Q'], l['s'], l['c']])
+        ob('tebd/nn-gate/block-is-the-gated-block', got is not None and equal(got, want), {'lam_l gam_l\' lam_m\' gam_r\' lam_r': repr(got), 'required': repr(want)})
+        res['seconds'] = round(time.time() - t0, 3)
+        return res
+
+
+_t_c10 = targets
+
+
+def targets(tier='quick'):
+    return _t_c10(tier) + [NnGateTarget()]
